@@ -160,21 +160,37 @@ def check(c):
     c.ob('C19.select-unpack', f'{lt.fq} :: (name, cycle) rows', ok,
          c.where(lt.node, lt), '')
     rl = c.func(TP, 'TaskPool.load_db_task_pool_for_restart')
-    pl = [n for n in c.idx.walk(rl.node) if isinstance(n, ast.For)
-          and 'select_task_prerequisites' in norm(n.iter)]
-    un = [norm(e) for e in pl[0].target.elts] if pl else []
-    c.ob('C19.select-unpack', f'{rl.fq} :: prerequisite rows', un == [
-        {'prereq_output': 'prereq_output_msg'}.get(x, x)
-        for x in sel_cols('select_task_prerequisites')],
-        c.where(rl.node, rl), f'{un}')
-    if pl:
-        key = [n for n in ast.walk(pl[0]) if isinstance(n, ast.Subscript)
-               and norm(n.value) == 'sat' and isinstance(n.ctx, ast.Store)]
-        ok = bool(key) and norm(key[0].slice) in (
-            '(prereq_cycle, prereq_name, prereq_output_msg)',
-            'prereq_cycle, prereq_name, prereq_output_msg')
+    # rows of select_task_prerequisites are unpacked positionally and keyed
+    # (cycle, name, output) like Prerequisite keys -- as a loop filling a
+    # dict or as a dict comprehension, whatever the variables are called
+    cols = sel_cols('select_task_prerequisites')
+    un, keyexpr = [], None
+    for n in c.idx.walk(rl.node):
+        if isinstance(n, ast.For) and 'select_task_prerequisites' in norm(
+                n.iter) and isinstance(n.target, ast.Tuple):
+            un = [norm(e) for e in n.target.elts]
+            for k in ast.walk(n):
+                if isinstance(k, ast.Subscript) and isinstance(
+                        k.ctx, ast.Store) and isinstance(k.value, ast.Name):
+                    keyexpr = k.slice
+        elif isinstance(n, ast.DictComp) and any(
+                'select_task_prerequisites' in norm(g.iter)
+                for g in n.generators) and isinstance(
+                n.generators[0].target, ast.Tuple):
+            un = [norm(e) for e in n.generators[0].target.elts]
+            keyexpr = n.key
+    c.ob('C19.select-unpack', f'{rl.fq} :: prerequisite rows unpack '
+         f'{len(cols)} columns', len(un) == len(cols) and len(set(un)) == len(
+             un), c.where(rl.node, rl), f'{un} for {cols}')
+    if len(un) == len(cols):
+        byc = dict(zip(cols, un))
+        want = [byc.get('prereq_cycle'), byc.get('prereq_name'),
+                byc.get('prereq_output')]
+        got = [norm(e) for e in keyexpr.elts] if isinstance(
+            keyexpr, ast.Tuple) else None
         c.ob('C19.select-unpack', f'{rl.fq} :: sat keyed (cycle, name, '
-             'output) like Prerequisite keys', ok, c.where(rl.node, rl), '')
+             'output) like Prerequisite keys', got == want,
+             c.where(rl.node, rl), f'key {got}, columns {cols} as {un}')
     la = c.func(TP, 'TaskPool.load_db_task_action_timers')
     un = _unpack_of_row(c, la)
     want = [{'ctx_key': 'ctx_key_raw', 'ctx': 'ctx_raw',
